@@ -130,6 +130,11 @@ def run(ctx):
         c = ec.enforce_case(rules, {'by': 'name', 'name': 'p:x'}, target, creds, dflt=('opt', None), want='c05')
         cases.append(c)
     ec.set_debug(False)
+    # list elements of every scalar kind, the falsy ones too: an element matches by its string form
+    for falsy in (0, 0.0, False, None, '', 1, True, 'v'):
+        for creds in ({'a': {'b': [falsy, 'x']}, 'roles': []}, {'a': [{'b': falsy}, {'b': 'y'}], 'roles': []}, {'a': {'b': [['x'], falsy]}, 'roles': []}):
+            for parts, target in (([ev.ph('t')], {'t': str(falsy)}), ([ev.ph('t')], {'t': falsy}), ([str(falsy)] if str(falsy) else [ev.ph('t')], {'t': ''})):
+                cases.append(ec.enforce_case([('p:x', ev.generic('a.b', *parts))], {'by': 'name', 'name': 'p:x'}, target, creds, dflt=('opt', None), want='c05'))
     # check objects are shared by every thread that uses the enforcer: a call suspended inside the
     # evaluation decides on its own target and credentials whatever another call does meanwhile
     n_conc = 0
